@@ -42,12 +42,13 @@ package rpm
 //
 //@ inline func createFilesInsideRPM(info *nfpm.Info, rpm *rpmpack.RPM) (err error)
 //@   requires [C08] info != nil && rpm != nil && files.SpecContentsNonNil(info.Contents)
-//@   requires [C08] nfpm.SpecPlanOK(info.Contents, !info.MTime.IsZero())
+//@   requires [C08] files.SpecPlanInputOK(info.Contents, !info.MTime.IsZero())
 //@   requires !ghostFlag("failed") && !ghostFlag("clockRead") && !ghostFlag("envRead")
 //@   loop 0
 //@     invariant [C06] no-failure-so-far: !ghostFlag("failed")
 //@     invariant [C07] no-clock-so-far: implies(!old(info.MTime.IsZero()), !ghostFlag("clockRead"))
-//@     invariant [C11 C12] plan-still-fresh: nfpm.SpecPlanOK(info.Contents, !old(info.MTime.IsZero()))
+//@     invariant [C11 C12] plan-still-fresh: !inlined() || nfpm.SpecPlanOK(info.Contents, !old(info.MTime.IsZero()))
+//@     invariant [C01 C03 C08] plan-entries-complete: inlined() || files.SpecPlanInputOK(info.Contents, !old(info.MTime.IsZero()))
 //
 //@ inline func toRelation(items []string) (rel rpmpack.Relations, err error)
 //@   loop 0
